@@ -966,6 +966,12 @@ class Interp(ModelMixin):
                 visit_val(f.cur_exc)
         for sym in self.mon_roots(st):
             visit(sym)
+        la = st.mon.get('lastapp')
+        if la:
+            la = {k: v for k, v in la.items() if k in reach}        # the value last appended to a live list
+            st.mon['lastapp'] = la
+            for v in la.values():
+                visit_val(v)
         memo = st.mon.get('propmemo')
         if memo:
             memo = {k: v for k, v in memo.items() if k[0] in reach}
@@ -1108,8 +1114,6 @@ class Interp(ModelMixin):
                     elif isinstance(x, ast.Starred):
                         if isinstance(v, TupleV):
                             nxt.append(((acc + v.items, stars), s2))
-                        elif isinstance(v, Ref) and v.kind == 'list' and s2.get(v.sym).kind == 'lit':
-                            nxt.append(((acc + s2.get(v.sym).items, stars), s2))
                         else:
                             nxt.append(((acc, stars + [v]), s2))
                     else:
@@ -1147,7 +1151,10 @@ class Interp(ModelMixin):
             else:
                 items.append(Unknown('starred element'))
                 owned.append(())
-        sym = st.new(ListE('chain', min(lo, 2), None, items=tuple(items), owned=tuple(owned), ordered=ordered, stages=('display',), spec=tuple(parts)))
+        hi = None
+        if all(isinstance(v, Ref) and v.kind == 'list' and st.get(v.sym).hi is not None for v in stars):
+            hi = len(fixed) + sum(st.get(v.sym).hi for v in stars)
+        sym = st.new(ListE('chain', min(lo, 2) if hi is None else min(lo, hi), hi, items=tuple(items), owned=tuple(owned), ordered=ordered, stages=('display',), spec=tuple(parts)))
         return Ref('list', sym)
 
     def ev_List(self, e, st):
@@ -1433,6 +1440,60 @@ class Interp(ModelMixin):
             s.frame.env.update(saved)
         return res
 
+    def _next_gen(self, e, st):
+        """next(<generator expression>[, default]): the loop with early exit at the first element produced (the generator
+        is lazy: elements after the first match are never evaluated)."""
+        gen = e.args[0]
+        g = gen.generators[0]
+        res = []
+        names = [n.id for n in ast.walk(g.target) if isinstance(n, ast.Name)]
+        walrus = [n.target.id for c in list(g.ifs) + [gen.elt] for n in ast.walk(c) if isinstance(n, ast.NamedExpr)]
+        saved = {n: st.frame.env[n] for n in names if n in st.frame.env}
+        for it, s in self.ev(g.iter, st):
+            if isinstance(it, Raise):
+                res.append((it, s))
+                continue
+
+            def body(elem, s2):
+                outs = []
+                for ctl, s3 in self.assign(g.target, elem, s2, e):
+                    if ctl != NEXT:
+                        outs.append((ctl, s3))
+                        continue
+                    conds = [(True, s3)]
+                    for c in list(g.ifs):
+                        nxt = []
+                        for ok, s4 in conds:
+                            nxt.extend(self.cond(c, s4) if ok is True else [(ok, s4)])
+                        conds = nxt
+                    for ok, s4 in conds:
+                        if isinstance(ok, Raise):
+                            outs.append((('raise', ok.exc), s4))
+                        elif not ok:
+                            outs.append((NEXT, s4))
+                        else:
+                            for v, s5 in self.ev(gen.elt, s4):
+                                outs.append(((('raise', v.exc) if isinstance(v, Raise) else ('ret', v)), s5))
+                return outs
+            exits, escapes = self.run_loop(it, s, body, e)
+            for _, s2 in exits:
+                if len(e.args) > 1:
+                    for d, s3 in self.ev(e.args[1], s2):
+                        res.append((d, s3))
+                else:
+                    res.append((self.exc('StopIteration', s2, e), s2))
+            for ctl, s2 in escapes:
+                if isinstance(ctl, tuple) and ctl[0] == 'ret':
+                    res.append((ctl[1], s2))
+                elif isinstance(ctl, tuple) and ctl[0] == 'raise':
+                    res.append((Raise(ctl[1]), s2))
+        for v, s in res:
+            for n in names:
+                if n not in walrus:
+                    s.frame.env.pop(n, None)
+            s.frame.env.update(saved)
+        return res
+
     def _any_all_fact(self, gen, g, st, it):
         """`any(x is v for v in L)` was False, i.e. the comparison failed for every element: x not-in L (and not in
         the lists L was displayed from)"""
@@ -1466,6 +1527,9 @@ class Interp(ModelMixin):
         if isinstance(e.func, ast.Name) and e.func.id in ('any', 'all') and e.func.id not in st.frame.env and len(e.args) == 1 \
                 and not e.keywords and isinstance(e.args[0], (ast.GeneratorExp, ast.ListComp)) and len(e.args[0].generators) == 1:
             return self._any_all(e, st)
+        if isinstance(e.func, ast.Name) and e.func.id == 'next' and 'next' not in st.frame.env and len(e.args) in (1, 2) \
+                and not e.keywords and isinstance(e.args[0], ast.GeneratorExp) and len(e.args[0].generators) == 1:
+            return self._next_gen(e, st)
         # super()
         if isinstance(e.func, ast.Name) and e.func.id == 'super' and 'super' not in st.frame.env:
             return [(self.super_value(st, e), st)]
